@@ -54,3 +54,8 @@ package frame
 //@   # proof hints (each is proved where it stands, then used): the appended entry is the last one of
 //@   # its node's frame, and earlier entries of that frame keep their positions
 //@   hint_after "frames[nodeKey] = frames[nodeKey].Append(key, ser)" __in(frames, nodeKey) && len(frames[nodeKey].RawKeys()) > 0 && frames[nodeKey].RawKeys()[len(frames[nodeKey].RawKeys())-1] == key && __eq(frames[nodeKey].RawSeries()[len(frames[nodeKey].RawKeys())-1], ser)
+
+//@ # an empty frame with room for cap entries (sized by the caller's own state, not by wire data)
+//@ trusted func Alloc(cap int) (f Frame)
+//@   ensures len(f.RawKeys()) == 0 && len(f.RawSeries()) == 0
+//@   modifies nothing
